@@ -447,6 +447,8 @@ CORPUS = [
     'D22|o2,4,w w2 W2,3,1 x t2 o2,0,w W2,1,1 c2',
     'doc|O0,0,wb W0,5,9 c0 d0 o2,0,w p2,23,Dan p2,24,Chess c2 O1,0,r w1 q1 q1 x d1',      # the examples of File.c
     'chunks|O1,1,w+ W1,8191,5 W1,1,6 W1,8193,7 s1,0,0 r1,8192 r1,8192 r1,1 e1 r1,1 e1 t1 d1',
+    'fd0|O0,0,wb W0,23,5 d0 O0,0,rb r0,23 e0 d0',       # del closes (and flushes) whatever descriptor number the stream has
+    'fd012|O0,0,w O1,1,w+ o2,2,w W0,3,1 W1,3,2 p2,7,ab d0 d1 c2 o3,0,r r3,3 o3,2,r q3 c3',
     'life|o2,3,w t2 o2,0,r o2,0,w o2,1,w+ W2,4,3 o2,1,r r2,4 o2,3,r t2 c2',           # failing fopen leaves the File closed
     'bin|O0,0,w+ W0,10,3 s0,2,0 W0,2,0 s0,-3,2 r0,3 s0,4,1 W0,1,9 t0 s0,0,0 r0,16 e0 s0,-1,0 s0,0,7 t0 e0 d0',
 ]
@@ -464,6 +466,11 @@ def small_scope(maxlen):
         for t in itertools.product(SMALL_ALPHABET, repeat=n):
             out.append('small|' + ' '.join(t))
     return out
+
+
+def rng_flag(rng):
+    r = rng.random()
+    return 'fd0,' if r < .2 else 'fd012,' if r < .34 else ''
 
 
 def file_flags():
@@ -487,7 +494,8 @@ def run(ctx):
         'all-zero data), sseek with every origin (inside, at, beyond the end, negative, invalid origin), stell, seof, sflush, '
         'print_to/scan_from of "%ld %s\\n" records; styles: life-cycle heavy, operations on closed Files, binary, text, mixed, big chunks, '
         'write-in-one-chunking/read-in-another after reopen|seek|with|del, records printed then scanned back after reopen|seek, failing fclose; '
-        'plus EVERY history up to length 3 (thorough: 4) over a 20-operation alphabet. After EVERY operation the harness prints ftell/feof '
+        'plus EVERY history up to length 3 (thorough: 4) over a 20-operation alphabet; a third of the seeded histories, the short exhaustive ones '
+        'and two corpus cases run in a process that closed descriptor 0 (or 0,1,2) first, so that Files get the descriptor numbers of the standard streams. After EVERY operation the harness prints ftell/feof '
         'of each open FILE* and the fopen/fclose events seen by the link-time wrappers. A case is non-trivial when it exercised at least two '
         'of the boundary predicates listed in coverage.features and at least one of {operation on a closed File raised IOError, bytes read '
         'back, record scanned back}; distinct = distinct implementation transcripts')
@@ -524,6 +532,7 @@ def run(ctx):
         ctx.notes.append('/dev/full is not available: the failing-fclose cases (D22 witnesses, style full) are not run')
     d.feed(CORPUS, 'corpus')
     small = small_scope(3 if quick else 4)          # 20 + 400 + 8000 (+ 160000) histories, exhaustive
+    small += ['fd012,' + c for c in small_scope(2 if quick else 3)]      # and again with descriptors 0,1,2 free
     for i in range(0, len(small), 4000):
         d.feed(small[i:i + 4000])
     ctx.cov['small_scope'] = {'alphabet': SMALL_ALPHABET, 'max_length': 3 if quick else 4, 'histories': len(small), 'exhaustive': True}
@@ -533,6 +542,8 @@ def run(ctx):
     for i in range(n):
         if i % 10 == 9 and HAVE_FULL: cases.append(gen_case(ctx.rng, maxops, 'full'))
         else: cases.append(gen_case(ctx.rng, maxops if i % 4 else 12))
+    # a third of the histories run in a process that has given up descriptor 0 (or 0, 1, 2)
+    cases = [(rng_flag(ctx.rng) + c) for c in cases]
     for i in range(0, n, 1000):
         d.feed(cases[i:i + 1000])
     # evidence: operation histogram and boundary predicates (second pass over a sample, cheap)
